@@ -831,6 +831,12 @@ def main(ctx):
         xy_pts += cap(c, DISTS, bearings)
     for c in [(0.0, 0.0), (180.0, 0.0), (95.0, 0.0), (275.0, 0.0)]:     # the ra cut of both conventions
         xy_pts += cap(c, [1e-9, 1e-6, 1e-3], bearings)
+    # a fine ladder of longitudes next to the cuts (a snap-to-zero with an absolute tolerance eats everything below it)
+    for cut in (0.0, 360.0, 95.0, 275.0, 180.0):
+        for d in (2e-15, 1e-13, 1e-12, 1e-11, 1e-10, 3e-10, 2e-9, 4e-9, 8e-9, 2e-8, 5e-8, 1e-7):
+            for dec_ in (0.0, 33.0):
+                xy_pts.append((cut + d if cut < 360.0 else d, dec_))
+                xy_pts.append(((cut - d) % 360.0, dec_))
     xy_pts = dedupe(xy_pts)
     r3 = 0.5773502691896258
     VECS = [(1.0, 0.0, 0.0), (0.0, 1.0, 0.0), (0.0, 0.0, 1.0), (-1.0, 0.0, 0.0), (0.0, -1.0, 0.0), (0.0, 0.0, -1.0),
